@@ -183,15 +183,19 @@ class H2Protocol:
             )
             chunk_size = max(0, chunk_size)
             data = await self.stream_buffers[stream_id].pop(chunk_size)
+            # The pop may wake whoever drains the buffer, so the end of
+            # the stream must be written before yielding to them.
+            complete = self.stream_buffers[stream_id].complete
             if data:
-                self.connection.send_data(stream_id, data)
+                self.connection.send_data(stream_id, data, end_stream=complete)
+                await self._flush()
+            elif complete:
+                self.connection.end_stream(stream_id)
                 await self._flush()
             else:
                 self.priority.block(stream_id)
 
-            if self.stream_buffers[stream_id].complete:
-                self.connection.end_stream(stream_id)
-                await self._flush()
+            if complete:
                 del self.stream_buffers[stream_id]
                 self.priority.remove_stream(stream_id)
         except (h2.exceptions.StreamClosedError, KeyError, h2.exceptions.ProtocolError):
